@@ -4,6 +4,9 @@
 //! are written from the property texts: the caller's future resolves (exactly once, with a result)
 //! within the query timeout, never more requests in flight than the parallelism (or, after a
 //! stall, than the number of results), no peer asked twice, results sorted / bounded / answered.
+//! In a third of the cases one to three further lookups run next to the first one (plain ones and
+//! predicate lookups whose requested number of results is huge, zero or ordinary); every one of them
+//! must end with a result, and the service task must outlive them all.
 use crate::common::*;
 use discv5::enr::{CombinedKey, EnrKey, NodeId};
 use discv5::verif::service::*;
@@ -35,6 +38,21 @@ fn log2d(a: &K32, b: &K32) -> u64 {
 struct Node {
     enr: Enr,
     id: K32,
+    sk: [u8; 32],
+}
+
+/// The record of world node `i` as `make_world` builds it, with sequence number `seq`.
+fn world_enr(i: usize, sk: &[u8; 32], seq: u64) -> Enr {
+    let mut tmp = *sk;
+    let k = CombinedKey::secp256k1_from_bytes(&mut tmp).unwrap();
+    let mut b = Enr::builder();
+    b.ip4(Ipv4Addr::new(10, 3, (i / 250) as u8, (i % 250) as u8 + 1));
+    b.udp4(9000 + i as u16);
+    if i % 3 == 0 {
+        b.tcp4(30303);
+    }
+    b.seq(seq);
+    b.build(&k).unwrap()
 }
 
 fn make_world(n: usize) -> Vec<Node> {
@@ -57,7 +75,7 @@ fn make_world(n: usize) -> Vec<Node> {
             b.seq((i % 7) as u64 + 1);
             let enr = b.build(&k).unwrap();
             let id = NodeId::from(k.public()).raw();
-            v.push(Node { enr, id });
+            v.push(Node { enr, id, sk });
         }
     }
     v
@@ -73,12 +91,80 @@ struct Outcome {
     fails: Vec<(String, String)>,
     script: Vec<String>,
     nontrivial: bool,
+    tags: Vec<String>,
 }
 
-async fn run_case(seed: u64, idx: u64, world: &[Node], thorough: bool) -> Outcome {
+type Slot = Arc<Mutex<Vec<Result<Vec<Enr>, String>>>>;
+
+/// One lookup a case issues through the public API.
+struct Lookup {
+    label: String,
+    target: K32,
+    predicate: bool,
+    /// the number of results it may return: 16 for a plain lookup, the caller's count for a predicate lookup
+    k: usize,
+    /// the step of the handler loop at which it is issued (0: together with the first lookup)
+    start_step: usize,
+    started: bool,
+    done: Slot,
+}
+
+fn count_name(k: usize) -> String {
+    if k == usize::MAX {
+        "usize::MAX".into()
+    } else if k == usize::MAX / 2 {
+        "usize::MAX/2".into()
+    } else {
+        k.to_string()
+    }
+}
+
+fn start_lookup(svc: &ScriptedService, l: &mut Lookup) {
+    let slot = l.done.clone();
+    l.started = true;
+    if l.predicate {
+        let fut = svc.discv5.find_node_predicate(NodeId::new(&l.target), Box::new(|e: &Enr| e.tcp4().is_some()), l.k);
+        tokio::spawn(async move {
+            let r = fut.await;
+            slot.lock().unwrap().push(r.map_err(|e| format!("{:?}", e)));
+        });
+    } else {
+        let fut = svc.discv5.find_node(NodeId::new(&l.target));
+        tokio::spawn(async move {
+            let r = fut.await;
+            slot.lock().unwrap().push(r.map_err(|e| format!("{:?}", e)));
+        });
+    }
+}
+
+/// Why the task running `Service::start` has ended (it never ends by itself while the `Discv5` is alive).
+async fn service_end(svc: &mut ScriptedService) -> String {
+    match (&mut svc.task).await {
+        Ok(()) => "returned".into(),
+        Err(e) if e.is_panic() => {
+            let p = e.into_panic();
+            let m = p.downcast_ref::<String>().cloned().or_else(|| p.downcast_ref::<&str>().map(|s| s.to_string())).unwrap_or_else(|| "?".into());
+            format!("panicked: {}", m)
+        }
+        Err(_) => "was cancelled".into(),
+    }
+}
+
+/// The script of the running case, kept where the watchdog can read it when the case hangs.
+#[derive(Clone, Default)]
+struct Script(Arc<Mutex<Vec<String>>>);
+impl Script {
+    fn push(&self, s: String) {
+        self.0.lock().unwrap().push(s);
+    }
+    fn snapshot(&self) -> Vec<String> {
+        self.0.lock().unwrap().clone()
+    }
+}
+
+async fn run_case(seed: u64, idx: u64, world: &[Node], thorough: bool, script: Script) -> Outcome {
     let mut rng = crate::kb::case_rng(seed ^ 0x73766371, idx);
     let mut fails: Vec<(String, String)> = vec![];
-    let mut script = vec![];
     let par = rng.range(1, 4) as usize;
     let predicate = rng.chance(1, 3);
     let target_peer_no = rng.range(1, 6) as usize;
@@ -109,7 +195,7 @@ async fn run_case(seed: u64, idx: u64, world: &[Node], thorough: bool) -> Outcom
     let mut svc = match scripted_service(local_enr, local_key, config) {
         Ok(s) => s,
         Err(e) => {
-            return Outcome { fails: vec![("C09".into(), format!("cannot build the service: {}", e))], script, nontrivial: false };
+            return Outcome { fails: vec![("C09".into(), format!("cannot build the service: {}", e))], script: script.snapshot(), nontrivial: false, tags: vec![] };
         }
     };
     settle().await;
@@ -129,21 +215,31 @@ async fn run_case(seed: u64, idx: u64, world: &[Node], thorough: bool) -> Outcom
     if rng.chance(1, 6) && !table.is_empty() {
         target = world[table[0]].id;
     }
-    let done: Arc<Mutex<Vec<Result<Vec<Enr>, String>>>> = Arc::new(Mutex::new(vec![]));
-    let done2 = done.clone();
     let k = if predicate { target_peer_no } else { 16 };
-    if predicate {
-        let fut = svc.discv5.find_node_predicate(NodeId::new(&target), Box::new(|e: &Enr| e.tcp4().is_some()), target_peer_no);
-        tokio::spawn(async move {
-            let r = fut.await;
-            done2.lock().unwrap().push(r.map_err(|e| format!("{:?}", e)));
-        });
-    } else {
-        let fut = svc.discv5.find_node(NodeId::new(&target));
-        tokio::spawn(async move {
-            let r = fut.await;
-            done2.lock().unwrap().push(r.map_err(|e| format!("{:?}", e)));
-        });
+    let mut lookups: Vec<Lookup> = vec![Lookup { label: "the lookup".into(), target, predicate, k, start_step: 0, started: false, done: Arc::new(Mutex::new(vec![])) }];
+    // further lookups next to it: issued together with it or while it is in flight; the requested number
+    // of results of a predicate lookup is the application's to choose ("no limit" = usize::MAX included)
+    let mut tags: Vec<String> = vec![];
+    if rng.chance(1, 3) {
+        let n = rng.range(1, 3);
+        for c in 0..n {
+            let cpred = rng.chance(3, 4);
+            let ck = if cpred { *rng.pick(&[usize::MAX, usize::MAX, usize::MAX / 2, 0, 1, 16, 100]) } else { 16 };
+            let mut t = [0u8; 32];
+            t.copy_from_slice(&rng.bytes(32));
+            if rng.chance(1, 4) {
+                t = target;
+            }
+            let start_step = *rng.pick(&[0usize, 0, 1, 2, 5]);
+            let label = if cpred { format!("companion lookup {} (predicate, {} results requested)", c + 1, count_name(ck)) } else { format!("companion lookup {} (plain)", c + 1) };
+            script.push(format!("{} issued at step {}", label, start_step));
+            tags.push(if cpred { format!("lookup:companion_predicate_count_{}", count_name(ck)) } else { "lookup:companion_plain".into() });
+            lookups.push(Lookup { label, target: t, predicate: cpred, k: ck, start_step, started: false, done: Arc::new(Mutex::new(vec![])) });
+        }
+    }
+    let single = lookups.len() == 1;
+    for l in lookups.iter_mut().filter(|l| l.start_step == 0) {
+        start_lookup(&svc, l);
     }
     settle().await;
     // play the handler
@@ -161,8 +257,21 @@ async fn run_case(seed: u64, idx: u64, world: &[Node], thorough: bool) -> Outcom
     let mut pending_msgs: Vec<HandlerIn> = vec![];
     let mut steps = 0;
     let max_steps = if thorough { 4000 } else { 1500 };
-    while done.lock().unwrap().is_empty() && steps < max_steps {
+    // in a third of the cases responders report newer versions of records this node holds
+    let newer_records = rng.chance(1, 3);
+    let mut bumped: Vec<u64> = vec![0; world.len()];
+    let mut noted_newer = false;
+    let mut service_dead: Option<String> = None;
+    while lookups.iter().any(|l| l.done.lock().unwrap().is_empty()) && steps < max_steps {
         steps += 1;
+        if svc.task.is_finished() {
+            service_dead = Some(service_end(&mut svc).await);
+            break;
+        }
+        for l in lookups.iter_mut().filter(|l| !l.started && l.start_step <= steps) {
+            start_lookup(&svc, l);
+        }
+        settle().await;
         let mut msgs = std::mem::take(&mut pending_msgs);
         msgs.extend(svc.drain());
         for m in msgs {
@@ -177,8 +286,9 @@ async fn run_case(seed: u64, idx: u64, world: &[Node], thorough: bool) -> Outcom
                                 continue;
                             }
                         };
-                        if asked.contains(&pi) {
-                            fails.push(("C09".into(), "the lookup sent its request to the same peer twice".into()));
+                        // (every lookup in flight asks a peer at most once)
+                        if asked.iter().filter(|x| **x == pi).count() >= lookups.iter().filter(|l| l.started).count() {
+                            fails.push(("C09".into(), if single { "the lookup sent its request to the same peer twice".to_string() } else { "a peer was asked more often than there are lookups".to_string() }));
                         }
                         asked.push(pi);
                         in_flight.insert(req.id.0.clone(), (pi, now));
@@ -203,7 +313,20 @@ async fn run_case(seed: u64, idx: u64, world: &[Node], thorough: bool) -> Outcom
                                     let j = if !table.is_empty() && tries < 60 && rng.chance(1, 2) { *rng.pick(&table) } else { rng.below(world.len() as u64) as usize };
                                     let d = log2d(&world[j].id, &pid);
                                     if distances.contains(&d) && !recs.iter().any(|r| r.node_id().raw() == world[j].id) {
-                                        recs.push(world[j].enr.clone());
+                                        // now and then the responder knows a newer version of a routing-table entry's
+                                        // record than this node holds (the entry is updated while the lookup goes on)
+                                        if table.contains(&j) && newer_records && rng.chance(1, 2) {
+                                            bumped[j] += rng.range(1, 3);
+                                            recs.push(world_enr(j, &world[j].sk, world[j].enr.seq() + bumped[j]));
+                                            if !noted_newer {
+                                                noted_newer = true;
+                                                script.push("answers carry newer versions of routing-table entries' records".into());
+                                            }
+                                        } else if bumped[j] > 0 {
+                                            recs.push(world_enr(j, &world[j].sk, world[j].enr.seq() + bumped[j]));
+                                        } else {
+                                            recs.push(world[j].enr.clone());
+                                        }
                                         if j != pi {
                                             reported.insert(j);
                                         }
@@ -286,8 +409,9 @@ async fn run_case(seed: u64, idx: u64, world: &[Node], thorough: bool) -> Outcom
         }
         // C09: never more lookups requests in flight than the parallelism (or, once stalled, than the number of results)
         let unexpired = in_flight.values().filter(|(_, t)| now < t + peer_timeout).count();
-        if unexpired > par.max(k) {
-            fails.push(("C09".into(), format!("{} requests in flight, parallelism {} and {} results requested", unexpired, par, k)));
+        let bound = lookups.iter().filter(|l| l.started).fold(0usize, |a, l| a.saturating_add(par.max(l.k)));
+        if unexpired > bound {
+            fails.push(("C09".into(), if single { format!("{} requests in flight, parallelism {} and {} results requested", unexpired, par, k) } else { format!("{} requests in flight, more than the lookups in flight allow together (parallelism {})", unexpired, par) }));
         }
         if unexpired > par {
             ever_many = true;
@@ -319,22 +443,47 @@ async fn run_case(seed: u64, idx: u64, world: &[Node], thorough: bool) -> Outcom
     let _ = ever_many;
     // let the query timeout pass
     let mut extra = 0;
-    while done.lock().unwrap().is_empty() && extra < 200 {
+    while service_dead.is_none() && lookups.iter().any(|l| l.done.lock().unwrap().is_empty()) && extra < 200 {
+        if svc.task.is_finished() {
+            service_dead = Some(service_end(&mut svc).await);
+            break;
+        }
+        for l in lookups.iter_mut().filter(|l| !l.started) {
+            start_lookup(&svc, l);
+        }
         tokio::time::advance(Duration::from_millis(500)).await;
         now += 500;
         settle().await;
         let _ = svc.drain();
         extra += 1;
     }
-    let results = done.lock().unwrap().clone();
-    script.push(format!("{} peers asked, {} answered, lookup ended after {} ms of virtual time", asked.len(), answered.len(), now));
-    if results.is_empty() {
-        fails.push(("C09".into(), "the lookup neither finished nor was cut off by the query timeout: the caller never received a result".into()));
-    } else {
+    if service_dead.is_none() && svc.task.is_finished() {
+        service_dead = Some(service_end(&mut svc).await);
+    }
+    settle().await;
+    script.push(format!("{} peers asked, {} answered, ended after {} ms of virtual time", asked.len(), answered.len(), now));
+    // C09: whatever lookups the application issues, each of them ends with a result - the task that runs
+    // them all must not die under them
+    if let Some(why) = &service_dead {
+        let open = lookups.iter().filter(|l| l.started && !matches!(l.done.lock().unwrap().first(), Some(Ok(_)))).count();
+        fails.push(("C09".into(), format!("the service task {} - {} of the {} lookups issued were left without a result, no further lookup can be started", why, open, lookups.iter().filter(|l| l.started).count()).chars().map(|c| if c.is_ascii_digit() { '#' } else { c }).collect()));
+    }
+    for l in &lookups {
+        let results = l.done.lock().unwrap().clone();
+        let (target, k) = (l.target, l.k);
+        if results.is_empty() {
+            if l.started {
+                fails.push(("C09".into(), format!("{} neither finished nor was cut off by the query timeout: the caller never received a result", l.label)));
+            }
+            continue;
+        }
+        if results.len() > 1 {
+            fails.push(("C09".into(), format!("{} handed its result to the caller more than once", l.label)));
+        }
         match &results[0] {
-            Err(e) => fails.push(("C09".into(), format!("the caller received an error instead of a result: {}", e))),
+            Err(e) => fails.push(("C09".into(), format!("the caller of {} received an error instead of a result: {}", l.label, e))),
             Ok(enrs) => {
-                script.push(format!("{} results", enrs.len()));
+                script.push(format!("{}: {} results", l.label, enrs.len()));
                 if enrs.len() > k {
                     fails.push(("C10".into(), format!("{} results, more than the {} requested", enrs.len(), k)));
                 }
@@ -351,24 +500,28 @@ async fn run_case(seed: u64, idx: u64, world: &[Node], thorough: bool) -> Outcom
                     }
                 }
                 // C10: fewer than k results and not cut off by the query timeout: every candidate the
-                // lookup learned of was contacted
-                if enrs.len() < k && !timeout_case {
+                // lookup learned of was contacted (with several lookups in flight the harness does not
+                // know which of them an answer informed)
+                if single && enrs.len() < k && !timeout_case {
                     if let Some(j) = reported.iter().find(|j| !asked.contains(j)) {
                         fails.push(("C10".into(), format!("the lookup ended by itself with {} of {} results although a candidate it learned of from an answer was never contacted{}", enrs.len(), k, if removed.contains(j) { " (the candidate had left the routing table in the meantime)" } else { "" }).chars().map(|c| if c.is_ascii_digit() { '#' } else { c }).collect()));
                     }
                 }
-                if predicate && enrs.iter().any(|e| e.tcp4().is_none()) {
+                if l.predicate && enrs.iter().any(|e| e.tcp4().is_none()) {
                     fails.push(("C10".into(), "a predicate lookup returned a node whose record does not satisfy the predicate".into()));
                 }
             }
         }
-        if timeout_case {
-            script.push("query timeout of 30 ms (real time), every peer silent".into());
-        }
-        if !timeout_case && now > query_timeout + 60_000 {
-            fails.push(("C09".into(), "the lookup outlived the query timeout by more than a minute".into()));
-        }
     }
+    if timeout_case {
+        script.push("query timeout of 30 ms (real time), every peer silent".into());
+    }
+    // (virtual time; silent requests are resolved by the harness one at a time, so the virtual duration grows
+    // with the number of peers asked - with several lookups, some for an unbounded number of results, it is not a yardstick)
+    if single && !timeout_case && now > query_timeout + 60_000 {
+        fails.push(("C09".into(), "the lookup outlived the query timeout by more than a minute".into()));
+    }
+    let results: Vec<()> = if service_dead.is_none() && lookups.iter().all(|l| !l.done.lock().unwrap().is_empty()) { vec![()] } else { vec![] };
     // C11: a responder that returns records at other distances is banned - also when its answer
     // arrives after the lookup that asked has ended
     if !results.is_empty() {
@@ -387,8 +540,11 @@ async fn run_case(seed: u64, idx: u64, world: &[Node], thorough: bool) -> Outcom
     }
     svc.task.abort();
     fails.dedup();
-    Outcome { fails, script, nontrivial: asked.len() >= 2 }
+    Outcome { fails, script: script.snapshot(), nontrivial: asked.len() >= 2, tags }
 }
+
+/// real seconds a case may take before it is given up as hung (a case takes milliseconds)
+const WATCH_SECS: u64 = 30;
 
 /// `harness svcq --seed S --cases N --out DIR [--only I]`
 pub fn main(args: &[String]) {
@@ -402,7 +558,7 @@ pub fn main(args: &[String]) {
         }
         i += 1;
     }
-    let world = make_world(160);
+    let world: &'static Vec<Node> = Box::leak(Box::new(make_world(160)));
     let mut sum = Summary::new("svcq");
     let mut seen: BTreeSet<String> = BTreeSet::new();
     std::fs::create_dir_all(&o.out).unwrap();
@@ -410,10 +566,35 @@ pub fn main(args: &[String]) {
         Some(x) => vec![x],
         None => (0..o.cases).collect(),
     };
+    let mut hung = 0;
     for idx in range {
-        let rt = tokio::runtime::Builder::new_current_thread().enable_all().start_paused(true).build().unwrap();
-        let out = rt.block_on(run_case(o.seed, idx, &world, o.thorough));
-        drop(rt);
+        if hung >= crate::service::MAX_HUNG_CASES {
+            break;
+        }
+        // every case on a thread of its own, watched: a service task that blocks (it holds the only thread
+        // of the paused-clock runtime) must not stall the run - and a lookup that can never end is a C09 matter
+        let script = Script::default();
+        let (seed, thorough, sc) = (o.seed, o.thorough, script.clone());
+        let res = crate::service::run_watched(WATCH_SECS, move || {
+            let rt = tokio::runtime::Builder::new_current_thread().enable_all().start_paused(true).build().unwrap();
+            let out = rt.block_on(run_case(seed, idx, world, thorough, sc));
+            drop(rt);
+            out
+        });
+        let out = match res {
+            Some(out) => out,
+            None => {
+                hung += 1;
+                let mut sc = script.snapshot();
+                sc.push(format!("the case did not end within {} s of real time", WATCH_SECS));
+                Outcome {
+                    fails: vec![("C09".into(), "the service stopped responding while lookups were in flight (the task that runs Service::start is blocked or spins): no lookup can finish or be cut off by the query timeout any more".into())],
+                    script: sc,
+                    nontrivial: false,
+                    tags: vec!["lookup:case_hung".into()],
+                }
+            }
+        };
         sum.evaluations += 1;
         if out.nontrivial {
             sum.distinct_nontrivial += 1;
@@ -421,6 +602,12 @@ pub fn main(args: &[String]) {
         sum.hist.add(if out.nontrivial { "lookup:asked_two_or_more_peers" } else { "lookup:asked_fewer_than_two_peers" });
         if out.script.iter().any(|x| x.contains("leaves the table before it is asked")) {
             sum.hist.add("lookup:reported_table_entry_removed_before_it_was_asked");
+        }
+        for t in &out.tags {
+            sum.hist.add(t);
+        }
+        if out.script.iter().any(|x| x.contains("newer versions of routing-table")) {
+            sum.hist.add("lookup:answers_carried_newer_records_of_table_entries");
         }
         if out.script.iter().any(|x| x.contains("query timeout of 30 ms")) {
             sum.hist.add("lookup:cut_off_by_a_real_time_query_timeout_and_result_delivered");
@@ -431,14 +618,14 @@ pub fn main(args: &[String]) {
         for (prop, desc) in out.fails {
             let sig: String = format!("{}:{}", prop, desc.chars().map(|c| if c.is_ascii_digit() { '#' } else { c }).collect::<String>());
             if seen.insert(sig.clone()) || only.is_some() {
-                let file = o.out.join(format!("failure_{}_{}.json", prop, idx));
+                let file = o.out.join(format!("failure_{}_{}_{}.json", prop, idx, seen.len()));
                 let j = J::obj(vec![("component", J::s("svcq")), ("property", J::s(prop.clone())), ("seed", J::I(o.seed as i64)), ("case", J::I(idx as i64)), ("what", J::s(desc.clone())), ("script", J::A(out.script.iter().map(|x| J::s(x.clone())).collect()))]);
                 std::fs::write(&file, j.render()).unwrap();
                 sum.monitor_failures.push((sig, desc, file.to_string_lossy().to_string()));
             }
         }
     }
-    sum.rule = "real find_node / find_node_predicate lookups through the real Service event loop (paused clock) over tables of 0-40 entries; the harness plays the handler: every FINDNODE is answered with NODES (one or two packets, records at the requested distances), failed, or left silent (late answers/failures now and then); parallelism 1-4, predicate lookups with 1-6 requested results; non-trivial = at least two peers were asked".into();
+    sum.rule = "real find_node / find_node_predicate lookups through the real Service event loop (paused clock) over tables of 0-40 entries; the harness plays the handler: every FINDNODE is answered with NODES (one or two packets, records at the requested distances; in a third of the cases newer versions of routing-table entries' records now and then), failed, or left silent (late answers/failures now and then); parallelism 1-4, predicate lookups with 1-6 requested results; in a third of the cases 1-3 further lookups are issued next to the first (at once or while it is in flight): plain ones and predicate lookups asking for usize::MAX, usize::MAX/2, 0, 1, 16 or 100 results - each must end with a result and the service task must survive; non-trivial = at least two peers were asked".into();
     sum.write(&o.out);
     println!("svcq: {} cases, {} non-trivial, {} monitor failure signatures", sum.evaluations, sum.distinct_nontrivial, sum.monitor_failures.len());
 }
